@@ -44,7 +44,9 @@ pub fn record_mal(out: &mut Out, tier: &str, seed: u64) {
                 for m in catalogue(&fr, rng) {
                     out.ev(json!({"ev": "Mal", "fam": F::NAME, "typ": F::type_name(&p), "m": m.m, "site": m.site,
                                   "bytes": jbytes(&m.bytes), "block": dec_block::<F>(&m.bytes),
-                                  "async": dec_async::<F>(&m.bytes, usize::MAX), "poll": dec_poll::<F>(&m.bytes, usize::MAX)}));
+                                  "async": dec_async::<F>(&m.bytes, usize::MAX), "poll": dec_poll::<F>(&m.bytes, usize::MAX),
+                                  "async_1": dec_async::<F>(&m.bytes, 1),
+                                  "poll_1": crate::frontends::dec_poll_pending::<F>(&m.bytes, 1)}));
                 }
             } else {
                 out.ev(json!({"ev": "Untokenizable", "fam": F::NAME, "bytes": jbytes(&e)}));
@@ -53,6 +55,19 @@ pub fn record_mal(out: &mut Out, tier: &str, seed: u64) {
     }
     run::<V3>(out, &mut rng, &mut b, n);
     run::<V5>(out, &mut rng, &mut b, 2 * n);
+    fn big<F: Fam>(out: &mut Out) {
+        large_class_for(F::NAME, &mut |m, bytes, bad| {
+            if bad {
+                out.ev(json!({"ev": "Mal", "fam": F::NAME, "typ": "large-class", "m": m, "site": "large length class",
+                              "bytes": jbytes(bytes), "block": dec_block::<F>(bytes),
+                              "async": dec_async::<F>(bytes, usize::MAX), "poll": dec_poll::<F>(bytes, usize::MAX),
+                              "async_1": dec_async::<F>(bytes, 4093),
+                              "poll_1": crate::frontends::dec_poll_pending::<F>(bytes, 4093)}));
+            }
+        });
+    }
+    big::<V3>(out);
+    big::<V5>(out);
 }
 
 // ------------------------------------------------------------------------------------------------
@@ -175,6 +190,8 @@ pub fn record_strict(out: &mut Out, tier: &str, seed: u64) {
     }
     run::<V3>(out, &mut rng, &mut b, n);
     run::<V5>(out, &mut rng, &mut b, 2 * n);
+    large_class_for("v3", &mut |m, bytes, _bad| strict_event::<V3>(out, m, bytes));
+    large_class_for("v5", &mut |m, bytes, _bad| strict_event::<V5>(out, m, bytes));
 }
 
 // ------------------------------------------------------------------------------------------------
@@ -359,13 +376,197 @@ fn accept_inputs<F: GenFam>(rng: &mut Rng, b: &mut Budget, n: usize, f: &mut dyn
     }
 }
 
+// ------------------------------------------------------------------------------------------------
+// Malformations (and their valid neighbours) in LENGTH CLASSES the catalogue over small packets never reaches:
+// a validator that switches strategy by size (block-wise UTF-8 check, a separate scan for long names, a u16 sum)
+// goes wrong only there.  Frames are spelled by the harness; (family, label m, frame, malformed?)
+pub fn large_class_frames() -> Vec<(&'static str, &'static str, Vec<u8>, bool)> {
+    use crate::topic::{field, frame, varint};
+    let mut out: Vec<(&'static str, &'static str, Vec<u8>, bool)> = Vec::new();
+    // (1) payloads flagged as UTF-8 (PFI = 1), larger than 32 KiB / 64 KiB
+    let mut payloads: Vec<(Vec<u8>, bool)> = Vec::new();
+    for n in [32771usize, 40000, 65539, 70000] {
+        payloads.push((vec![b'a'; n], true));
+        for (ch, at) in [("é", 32767usize), ("€", 32767), ("😀", 32766), ("é", 65535), ("€", 65534), ("😀", 65533), ("€", 32768 - 3), ("é", 32768)] {
+            if at + ch.len() <= n {
+                let mut p = vec![b'a'; n];
+                p[at..at + ch.len()].copy_from_slice(ch.as_bytes()); // a character across (or exactly at) a block boundary
+                payloads.push((p, true));
+            }
+        }
+        let mut p = vec![b'a'; n];
+        p[n - 1] = 0xFF; // the very last byte
+        payloads.push((p, false));
+        let mut p = vec![b'a'; n];
+        p[n - 1] = 0xC3; // a multi-byte character cut by the end
+        payloads.push((p, false));
+        let mut p = vec![b'a'; n];
+        p[(n / 32768) * 32768] = 0x80; // first byte after the last full 32 KiB block
+        payloads.push((p, false));
+        let mut p = vec![b'a'; n];
+        p[32768] = 0xFF;
+        payloads.push((p, false));
+        let mut p = vec![b'a'; n];
+        p[0] = 0xFF;
+        payloads.push((p, false));
+        let mut p = vec![b'a'; n];
+        p[32767] = 0xE2; // "€" cut after its first byte, at a block boundary
+        payloads.push((p, false));
+    }
+    for (p, ok) in &payloads {
+        let mut body = field(b"t");
+        body.extend_from_slice(&[2, 0x01, 0x01]);
+        body.extend_from_slice(p);
+        out.push(("v5", "payload_fmt", frame(0x30, &body), !*ok));
+        if p.len() <= 65535 {
+            // the same payload as a will payload
+            let mut body = vec![0, 4, b'M', b'Q', b'T', b'T', 5, 0x06, 0, 10, 0];
+            body.extend(field(b"c"));
+            body.extend_from_slice(&[2, 0x01, 0x01]);
+            body.extend(field(b"w"));
+            body.extend(field(p));
+            out.push(("v5", "payload_fmt", frame(0x10, &body), !*ok));
+        }
+    }
+    // (2) long text fields with one bad spot, at every kind of site
+    for n in [255usize, 256, 257, 1000, 4097, 65535] {
+        let mk = |pos: usize, bad: &[u8]| {
+            let mut t = vec![b'a'; n];
+            for (k, x) in bad.iter().enumerate() {
+                if pos + k < n {
+                    t[pos + k] = *x;
+                }
+            }
+            t
+        };
+        let spots = [0usize, n / 2, n - 1];
+        for pos in spots {
+            for (bad, kind) in [(&[0u8][..], "nul"), (&[b'+'][..], "plus"), (&[b'#'][..], "hash"), (&[0xFF][..], "utf8"), (&[0xC3][..], "cut")] {
+                if kind == "cut" && pos != n - 1 {
+                    continue;
+                }
+                let t = mk(pos, bad);
+                let m_name = if kind == "utf8" || kind == "cut" { "bad_utf8" } else { "wild_name" };
+                // v3 / v5 PUBLISH topic
+                let mut body = field(&t);
+                body.extend_from_slice(b"pl");
+                out.push(("v3", m_name, frame(0x30, &body), true));
+                let mut body = field(&t);
+                body.push(0);
+                body.extend_from_slice(b"pl");
+                out.push(("v5", m_name, frame(0x30, &body), true));
+                // will topic, both families
+                let mut body = vec![0, 4, b'M', b'Q', b'T', b'T', 4, 0x06, 0, 10];
+                body.extend(field(b"c"));
+                body.extend(field(&t));
+                body.extend(field(b"m"));
+                out.push(("v3", m_name, frame(0x10, &body), true));
+                let mut body = vec![0, 4, b'M', b'Q', b'T', b'T', 5, 0x06, 0, 10, 0];
+                body.extend(field(b"c"));
+                body.push(0);
+                body.extend(field(&t));
+                body.extend(field(b"m"));
+                out.push(("v5", m_name, frame(0x10, &body), true));
+                // v5 response topic
+                let mut props = vec![0x08];
+                props.extend(field(&t));
+                let mut body = field(b"t");
+                body.extend(varint(props.len()));
+                body.extend(&props);
+                out.push(("v5", if m_name == "wild_name" { "wild_resp" } else { "bad_utf8" }, frame(0x30, &body), true));
+                // SUBSCRIBE filter ('+' / '#' inside a level are invalid filters too), both families
+                let mut body = vec![0, 7];
+                body.extend(field(&t));
+                body.push(1);
+                let bad_filter = !(kind == "hash" && pos == n - 1 && false);
+                out.push(("v3", if m_name == "wild_name" { "bad_filter" } else { "bad_utf8" }, frame(0x82, &body), bad_filter));
+                let mut body = vec![0, 7, 0];
+                body.extend(field(&t));
+                body.push(1);
+                out.push(("v5", if m_name == "wild_name" { "bad_filter" } else { "bad_utf8" }, frame(0x82, &body), bad_filter));
+                // plain strings (client id; v5 reason string): only UTF-8 matters (NUL is carried through: leniency L8)
+                if m_name == "bad_utf8" {
+                    let mut body = vec![0, 4, b'M', b'Q', b'T', b'T', 4, 0x02, 0, 10];
+                    body.extend(field(&t));
+                    out.push(("v3", "bad_utf8", frame(0x10, &body), true));
+                    let mut props = vec![0x1F];
+                    props.extend(field(&t));
+                    let mut body = vec![0, 7, 0x10];
+                    body.extend(varint(props.len()));
+                    body.extend(&props);
+                    out.push(("v5", "bad_utf8", frame(0x40, &body), true));
+                }
+            }
+        }
+        // the valid neighbour: the same length, nothing wrong
+        let t = vec![b'a'; n];
+        let mut body = field(&t);
+        body.extend_from_slice(b"pl");
+        out.push(("v3", "valid", frame(0x30, &body), false));
+        let mut body = vec![0, 7, 0];
+        body.extend(field(&t));
+        body.push(1);
+        out.push(("v5", "valid", frame(0x82, &body), false));
+    }
+    // (3) two length-prefixed fields whose lengths add up past 65,535 (each legal on its own)
+    for (a, b2) in [(40000usize, 30000usize), (65535, 65535), (65535, 1), (1, 65535), (32768, 32768)] {
+        let mut up = vec![0x26];
+        up.extend(field(&vec![b'k'; a]));
+        up.extend(field(&vec![b'v'; b2]));
+        // v5 UNSUBSCRIBE, PUBLISH, DISCONNECT, CONNECT will properties
+        let mut body = vec![0, 7];
+        body.extend(varint(up.len()));
+        body.extend(&up);
+        body.extend(field(b"a/b"));
+        out.push(("v5", "valid", frame(0xA2, &body), false));
+        let mut body = field(b"t");
+        body.extend(varint(up.len()));
+        body.extend(&up);
+        body.extend_from_slice(b"pl");
+        out.push(("v5", "valid", frame(0x30, &body), false));
+        let mut body = vec![0x00];
+        body.extend(varint(up.len()));
+        body.extend(&up);
+        out.push(("v5", "valid", frame(0xE0, &body), false));
+        let mut body = vec![0, 4, b'M', b'Q', b'T', b'T', 5, 0x06, 0, 10, 0];
+        body.extend(field(b"c"));
+        body.extend(varint(up.len()));
+        body.extend(&up);
+        body.extend(field(b"w"));
+        body.extend(field(b"m"));
+        out.push(("v5", "valid", frame(0x10, &body), false));
+        // v3 CONNECT: will topic + will message, user name + password
+        let mut body = vec![0, 4, b'M', b'Q', b'T', b'T', 4, 0xC6, 0, 10];
+        body.extend(field(b"c"));
+        body.extend(field(&vec![b't'; a]));
+        body.extend(field(&vec![b'm'; b2]));
+        body.extend(field(&vec![b'u'; b2]));
+        body.extend(field(&vec![b'p'; a]));
+        out.push(("v3", "valid", frame(0x10, &body), false));
+    }
+    out
+}
+
+/// feed the large-class frames of one family to `f(origin, bytes, malformed)`
+pub fn large_class_for(fam: &str, f: &mut dyn FnMut(&str, &[u8], bool)) {
+    for (fm, m, bytes, bad) in large_class_frames() {
+        if fm == fam {
+            f(m, &bytes, bad);
+        }
+    }
+}
+
 pub fn record_reenc(out: &mut Out, tier: &str, seed: u64) {
+    crate::wire::attempt_oversized();
+    crate::wire::big_shapes(out, tier, if cfg!(debug_assertions) { "debug" } else { "release" });
     let n = if tier == "thorough" { 8000 } else { 350 };
     let mut rng = Rng::new(seed ^ 0xC11);
     let mut b = Budget { big: 40, huge: if tier == "thorough" { 10 } else { 1 } };
     accept_inputs::<V3>(&mut rng, &mut b, n, &mut |o, bytes| accepted_events::<V3>(out, o, bytes, true, false));
     let mut rng2 = Rng::new(seed ^ 0xC115);
     accept_inputs::<V5>(&mut rng2, &mut b, 2 * n, &mut |o, bytes| accepted_events::<V5>(out, o, bytes, true, false));
+    large_class_for("v3", &mut |o, bytes, _bad| accepted_events::<V3>(out, o, bytes, true, false));
+    large_class_for("v5", &mut |o, bytes, _bad| accepted_events::<V5>(out, o, bytes, true, false));
     // lenient framing at the width boundary of the length field, deterministically: a self-delimiting body that overruns
     // (and one that falls short of) the declared remaining length, where the true length needs another width
     for (declared, idlen) in [(12usize, 200usize), (12, 100), (127, 200), (300, 20), (20000, 20), (12, 17000)] {
@@ -392,6 +593,8 @@ pub fn record_decoded(out: &mut Out, tier: &str, seed: u64) {
     accept_inputs::<V3>(&mut rng, &mut b, n, &mut |o, bytes| accepted_events::<V3>(out, o, bytes, false, true));
     let mut rng2 = Rng::new(seed ^ 0xC125);
     accept_inputs::<V5>(&mut rng2, &mut b, 2 * n, &mut |o, bytes| accepted_events::<V5>(out, o, bytes, false, true));
+    large_class_for("v3", &mut |o, bytes, _bad| accepted_events::<V3>(out, o, bytes, false, true));
+    large_class_for("v5", &mut |o, bytes, _bad| accepted_events::<V5>(out, o, bytes, false, true));
 }
 
 // ------------------------------------------------------------------------------------------------
